@@ -5,13 +5,13 @@
 # repeated here. The harness leaves through _exit(0) (vh.h), so the at-exit
 # leak pass never runs; it calls __lsan_do_recoverable_leak_check() after
 # every case instead and reports `lsan:leak:<function>` itself.
-# quarantine_size_mb=64 (default 256): page faults are very expensive on this
-# VM and a 256 MB quarantine makes every allocation touch fresh pages; 64 MB
+# quarantine_size_mb=16 (default 256): page faults are very expensive on this
+# VM and a 256 MB quarantine makes every allocation touch fresh pages; 16 MB
 # still holds every object freed within one program (objects here are small),
 # so use-after-free within a case is still caught.
 _ASAN = ("abort_on_error=0:detect_leaks=1:leak_check_at_exit=0:allocator_may_return_null=1:"
          "max_allocation_size_mb=4096:exitcode=97:handle_abort=1:"
-         "detect_stack_use_after_return=0:malloc_context_size=12:quarantine_size_mb=64")
+         "detect_stack_use_after_return=0:malloc_context_size=12:quarantine_size_mb=16")
 
 CHECK = {
     "id": "C20",
